@@ -6,7 +6,8 @@ C03 — obligations over the regenerated class table (DESIGN.md 2.3b, Appendix 1
 All C03 theorems are stated over `expectedClassTable`; these obligations are what makes them
 theorems about the current class hierarchy, `composes_inplace_with` / `composes_with` gates and
 `as_non_alignment()` result classes.  A thirteenth family class, a changed MRO, a changed gate or
-a changed alignment-stripping class breaks them before any behaviour is sampled.
+a changed alignment-stripping class, or a compose entry point supplied by another class of the MRO
+breaks them before any behaviour is sampled.
 -/
 import MenpoModel.Generated.C03Classes
 
@@ -18,5 +19,10 @@ theorem familySize_ok : MenpoModel.Generated.C03.familySize = 12 := by decide
 theorem classTable_ok : MenpoModel.Generated.C03.classTable = expectedClassTable := by decide
 
 theorem classTable3_ok : MenpoModel.Generated.C03.classTable3 = expectedClassTable := by decide
+
+/-- every entry point of the composition machinery resolves, on every class, to the function body the
+model transcribes (an override of `_compose_before_inplace` in an alignment class, a new `_apply`,
+a `copy` that stops being `Copyable.copy` on chains … breaks this before any behaviour is sampled) -/
+theorem methodTable_ok : MenpoModel.Generated.C03.methodTable = expectedMethodTable := by decide
 
 end MenpoModel.GenProps.C03
